@@ -101,9 +101,7 @@ def read_graph(graph_raw) -> nx.DiGraph:
     # Store (possibly empty) list of subpaths (each a list of edge tuples)
     G.graph["constraints"] = constraint_subpaths
 
-    if n == 0:
-        utils.logger.info(f"Graph {graph_id} has 0 vertices.")
-        return G
+    # (a block with 0 vertices is read like any other block: its lines are validated and it gets n, m and w)
 
     # Parse edges: skip blanks and comment/header lines defensively
     for line in graph_raw[idx:]:
@@ -132,7 +130,7 @@ def read_graph(graph_raw) -> nx.DiGraph:
     G.graph["m"] = G.number_of_edges()
     # Lazy import here to avoid circular import at module load time
     from flowpaths import stdigraph as _stdigraph  # type: ignore
-    G.graph["w"] = _stdigraph.stDiGraph(G).get_width()
+    G.graph["w"] = _stdigraph.stDiGraph(G).get_width() if G.number_of_edges() > 0 else 0
 
     return G
 
